@@ -19,6 +19,7 @@ import (
 	"math/big"
 	"math/rand"
 	"regexp"
+	"strings"
 	"testing"
 
 	"filippo.io/edwards25519"
@@ -260,7 +261,7 @@ func run(in Input) emit.Case {
 		m.Lib = libVerify(in.B, in.Msg)
 		coq := emit.App("CVerify", emit.N(uint64(in.Scheme)), emit.Bool(in.Ident), emit.Bytes(in.B), emit.Bool(pkok), emit.Bool(sigok),
 			emit.Bool(m.Parsed), emit.Bool(m.Verified), emit.Bool(m.Lib))
-		sig := fmt.Sprintf("malleable-%s-%s", schemeName, mutClass)
+		sig := fmt.Sprintf("malleable-%s-%s", schemeName, strings.TrimPrefix(mutClass, "half-s-"))
 		if in.Ident {
 			sig = fmt.Sprintf("honest-%s-%s-rejected", schemeName, mutClass)
 		}
